@@ -370,6 +370,37 @@ type sim struct {
 }
 
 func (s *sim) startBuilder() {
+	if s.raw && s.rc.Tape.Permille("read.fail.start", 150) {
+		// a transient read error while the roots are looked up in the local store
+		rinj0 := s.B.injectedReads
+		s.B.readFailAt = 1 + s.rc.Tape.Choose("read.fail.start.at", 4)
+		err := s.startBuilderOnce()
+		s.B.readFailAt = 0
+		if s.B.injectedReads > rinj0 {
+			s.rc.Fault("read_error")
+			if err != nil {
+				// the start failed loudly: the caller starts again
+				s.rc.Probe("start_failed_on_read_error")
+				s.rc.Event("builder start failed: %v (injected read error); starting again", err)
+				must(s.startBuilderOnce())
+				return
+			}
+			// what could not be read may be requested although it is present
+			if s.failedPending == nil {
+				s.failedPending = map[string]bool{}
+			}
+			for _, p := range s.pending() {
+				s.failedPending[p.key] = true
+			}
+			return
+		}
+		must(err)
+		return
+	}
+	must(s.startBuilderOnce())
+}
+
+func (s *sim) startBuilderOnce() error {
 	if s.raw {
 		// the builder writes straight into the local store (as sync2 does in its no-buffer mode and the
 		// data syncers do): a failing write is visible to it
@@ -378,7 +409,9 @@ func (s *sim) startBuilder() {
 		s.builder = merkle.NewBuilder(s.B)
 	}
 	wss, err := state.NewWorldSnapshotWithBuilder(s.builder, s.src.stateHash, s.src.vlHash, nil, nil)
-	must(err)
+	if err != nil {
+		return err
+	}
 	s.wss = wss
 	s.extra, s.objs = nil, nil
 	if s.src.extraRoot != nil {
@@ -390,6 +423,7 @@ func (s *sim) startBuilder() {
 		s.objs.Resolve(s.builder)
 	}
 	s.flushed = false
+	return nil
 }
 
 func (s *sim) pending() []pend {
@@ -446,8 +480,55 @@ func (s *sim) deliver(kind string, bid db.BucketID, value []byte) {
 	if s.raw && want != nil && rc.Tape.Permille("write.fail", 120) {
 		s.B.failAt = 1 + rc.Tape.Choose("write.fail.at", len(want.bids))
 	}
+	rinj0 := s.B.injectedReads
+	if s.raw && want != nil && s.B.failAt == 0 && rc.Tape.Permille("read.fail", 120) {
+		// a transient read error while the delivered node's children are looked up in the local store
+		s.B.readFailAt = 1 + rc.Tape.Choose("read.fail.at", 6)
+	}
 	err := s.builder.OnData(bid, value)
-	s.B.failAt = 0
+	s.B.failAt, s.B.readFailAt = 0, 0
+	if s.B.injectedReads > rinj0 {
+		// Narrow relaxation: what could not be read may be requested although it is present; the delivery
+		// itself may fail (then its request must stay outstanding). Nothing may be left out.
+		rc.Fault("read_error")
+		if s.failedPending == nil {
+			s.failedPending = map[string]bool{}
+		}
+		before := map[string]bool{}
+		for _, p := range ps {
+			before[p.key] = true
+		}
+		for _, p := range s.pending() {
+			if !before[p.key] {
+				s.failedPending[p.key] = true
+			}
+		}
+		if want != nil && err != nil {
+			rc.Event("deliver %s bk=%q h=%s len=%d -> %v (injected read error)", kind, string(bid), short(h), len(value), err)
+			still := false
+			for _, p := range s.pending() {
+				if p.key == h {
+					still = true
+				}
+			}
+			if !still {
+				rc.Violate("failed-delivery-dropped-request", kind+"/read-error", "OnData(%q, hash %x) failed with %v (injected read error) and the request is no longer outstanding", string(bid), h, err)
+				return
+			}
+			for _, b := range want.bids {
+				if s.B.get(b, h) != nil {
+					r := ref{b, h}
+					if _, ok := s.accepted[r]; !ok {
+						s.acceptedOrder = append(s.acceptedOrder, r)
+					}
+					s.accepted[r] = string(value)
+				}
+			}
+			s.failedPending[h] = true
+			s.check(kind + "/read-error")
+			return
+		}
+	}
 	rc.Steps++
 	rc.Event("deliver %s bk=%q h=%s len=%d -> %v", kind, string(bid), short(h), len(value), err)
 	if want != nil && s.B.injected > inj0 {
